@@ -46,7 +46,7 @@ class Skip(Exception):
     pass
 
 
-class Hang(Exception):
+class Hang(BaseException):
     pass
 
 
